@@ -97,6 +97,30 @@ def check_one(d: t.Any) -> t.Optional[t.Tuple[str, str]]:
 
         diff = [f.name for f in dataclasses.fields(d) if getattr(r, f.name) != getattr(d, f.name)]
         return (f"reparse-differs:{type(d).__name__}:{'+'.join(diff)}", f"text form {s[:160]!r} parses back with different {diff}")
+    # the parsed object belongs to the caller: after the caller has changed every list / dict in it, parsing the same text
+    # again still gives the original definition
+    import dataclasses
+
+    touched = False
+    for f in dataclasses.fields(r):
+        v = getattr(r, f.name)
+        if isinstance(v, list):
+            v.append("caller-added")
+            touched = True
+        elif isinstance(v, dict):
+            for lst in v.values():
+                if isinstance(lst, list):
+                    lst.append("caller-added")
+            v["CALLER"] = ["added"]
+            touched = True
+    if touched:
+        try:
+            r3 = type(d).from_string(s)
+        except BaseException as e:  # noqa: BLE001
+            return (f"reparse-after-caller-change-raises:{type(e).__name__}", f"{s[:160]!r}: {e}")
+        if r3 != d:
+            diff = [f.name for f in dataclasses.fields(d) if getattr(r3, f.name) != getattr(d, f.name)]
+            return (f"parse-result-shared-between-calls:{type(d).__name__}:{'+'.join(diff)}", f"after the caller changed the object parsed from {s[:120]!r}, parsing the same text again gives different {diff}")
     return None
 
 
